@@ -28,7 +28,9 @@ a == Atom("a")
 (* implementation sees the real text.                                                                  *)
 (* ------------------------------ terms ----------------------------------- *)
 Leaves  == {a, Atom("Hello"), Atom("The Beaver"), Atom("x_1"), Atom("{U+6E0B}{U+8C37}"), V("${U+0426}{U+0435}{U+043D}{U+0430}"), IntT(0), IntT(7), IntT(42),
-            FltTx("1.5"), FltTx("0.25"), FltTx("3.14159"), V("$X"), V("$Abc"), Anon}
+            FltTx("1.5"), FltTx("0.25"), FltTx("3.14159"), V("$X"), V("$Abc"), Anon,
+            (* floats with all 16-17 significant digits, negative, small *)
+            FltTx("3.141592653589793"), FltTx("0.30000000000000004"), FltTx("-1.4142135623730951"), FltTx("123456.789"), FltTx("0.000001")}
 LeavesS == {a, Atom("The Beaver"), IntT(7), FltTx("1.5"), V("$X"), Anon}
 LeavesT == {a, IntT(7), V("$X")}
 Tails   == {V("$T"), Anon}
@@ -93,6 +95,7 @@ UniGoals ==   {UnifyG(u, s) : u \in Uni, s \in {V("$X"), a}} \cup {UnifyG(s, u) 
 SimpleS == {Call(Cx("p", <<V("$X")>>)), Call(Cx("q", <<a, V("$Y")>>)), UnifyG(V("$X"), a), Bip("less_than", <<V("$X"), IntT(7)>>),
             CutG, FailG, NlG, Bip("print", <<V("$X")>>), Call(Cx("go", <<>>)), NotG(Call(Cx("p", <<V("$X")>>)))}
 Simple == Calls \cup Bips \cup UniGoals \cup {NotG(g) : g \in {Call(Cx("p", <<V("$X")>>)), UnifyG(V("$X"), a), Bip("equal", <<V("$X"), a>>), Call(Cx("go", <<>>))}}
+          \cup {TimeG(g) : g \in {Call(Cx("p", <<V("$X")>>)), Call(Cx("go", <<>>)), Call(Cx("q", <<a, V("$Y")>>))}}
 Conjs  == {AndG(<<g1, g2>>) : g1 \in SimpleS, g2 \in SimpleS} \cup {AndG(<<g1, g2, g3>>) : g1 \in SimpleS, g2 \in {CutG, UnifyG(V("$X"), a)}, g3 \in SimpleS}
 ConjsS == {AndG(<<g1, g2>>) : g1 \in {Call(Cx("p", <<V("$X")>>)), CutG}, g2 \in {Call(Cx("q", <<a, V("$Y")>>)), FailG}}
 Disjs  ==   {OrG(<<g1, g2>>) : g1 \in SimpleS, g2 \in SimpleS}
